@@ -1,9 +1,11 @@
 package checks
 
 import (
+	"bytes"
 	"encoding/binary"
 	"fmt"
 	"runtime"
+	"strings"
 	"sync"
 	"sync/atomic"
 	"testing"
@@ -29,8 +31,8 @@ type muxCase struct {
 }
 
 type muxStats struct {
-	inFlight  int
-	nonFIFO   bool
+	inFlight         int
+	nonFIFO          bool
 	faultWithPending bool
 }
 
@@ -268,8 +270,8 @@ func runMuxCase(c muxCase, st *muxStats) *fail {
 			}
 		}
 	}
-	answered := map[int]bool{}    // call index -> got a proper reply
-	mustFail := map[int]bool{}    // call index -> pending when an unacceptable frame / break happened
+	answered := map[int]bool{} // call index -> got a proper reply
+	mustFail := map[int]bool{} // call index -> pending when an unacceptable frame / break happened
 	expectMark := map[int]uint64{}
 	broken := false
 	sent := 0
@@ -618,7 +620,7 @@ func runStaleCase(c staleCase) *fail {
 // --- fid recycling: sequences of walk / close / remove with confirmed and refused outcomes ---
 
 type fidCase struct {
-	Ops []string `json:"ops"` // walk | walkfail | close:<i> | closefail:<i> | remove:<i> | xattr
+	Ops []string `json:"ops"` // walk | walkfail | close:<i> | closefail:<i> | remove:<i> | xattr | xattr-read | xattr-readfail | xattr-walkfail | xattr-clunkfail | xattr-list | xattr-listfail
 }
 
 func runFidCase(c fidCase) *fail {
@@ -632,6 +634,7 @@ func runFidCase(c fidCase) *fail {
 	// decisions for the requests of the current operation (set before the
 	// operation is issued, consumed in order, discarded when the next one starts)
 	var decisions []bool
+	var xsize uint64 // size announced by Rxattrwalk
 	setDecisions := func(d ...bool) {
 		mu.Lock()
 		decisions = d
@@ -648,7 +651,7 @@ func runFidCase(c fidCase) *fail {
 		}
 		ok := true
 		switch req.Type {
-		case refcodec.Twalk, refcodec.Tclunk, refcodec.Tremove, refcodec.Txattrwalk:
+		case refcodec.Twalk, refcodec.Tclunk, refcodec.Tremove, refcodec.Txattrwalk, refcodec.Tread:
 			if len(decisions) > 0 {
 				ok, decisions = decisions[0], decisions[1:]
 			}
@@ -658,7 +661,20 @@ func runFidCase(c fidCase) *fail {
 			return []*refcodec.Msg{refcodec.New(refcodec.Rlerror, req.Tag, "ecode", 5)}
 		}
 		if req.Type == refcodec.Txattrwalk {
-			return []*refcodec.Msg{refcodec.New(refcodec.Rxattrwalk, req.Tag, "size", 0)}
+			return []*refcodec.Msg{refcodec.New(refcodec.Rxattrwalk, req.Tag, "size", xsize)}
+		}
+		if req.Type == refcodec.Tread {
+			// the attribute value, xsize bytes long
+			off, cnt := req.U("offset"), req.U("count")
+			val := bytes.Repeat([]byte{'v'}, int(xsize))
+			if off > uint64(len(val)) {
+				off = uint64(len(val))
+			}
+			val = val[off:]
+			if uint64(len(val)) > cnt {
+				val = val[:cnt]
+			}
+			return []*refcodec.Msg{refcodec.New(refcodec.Rread, req.Tag, "data", val)}
 		}
 		return []*refcodec.Msg{peers.GenericReply(req, 0)}
 	})
@@ -695,8 +711,32 @@ func runFidCase(c fidCase) *fail {
 			setDecisions(false)
 			root.Walk([]string{"x"})
 		case "xattr":
+			mu.Lock()
+			xsize = 0
+			mu.Unlock()
 			setDecisions(true, true) // the xattrwalk and the clunk of the temporary fid
 			root.GetXattr("user.a")
+		case "xattr-read", "xattr-readfail", "xattr-walkfail", "xattr-clunkfail", "xattr-list", "xattr-listfail":
+			// a temporary fid is bound by Txattrwalk, read with Tread and clunked;
+			// each of the three requests may be refused
+			mu.Lock()
+			xsize = 5
+			mu.Unlock()
+			switch kind {
+			case "xattr-read", "xattr-list":
+				setDecisions(true, true, true)
+			case "xattr-readfail", "xattr-listfail":
+				setDecisions(true, false, true)
+			case "xattr-walkfail":
+				setDecisions(false)
+			default:
+				setDecisions(true, true, false)
+			}
+			if strings.HasPrefix(kind, "xattr-list") {
+				root.ListXattrs()
+			} else {
+				root.GetXattr("user.a")
+			}
 		case "close", "closefail", "remove":
 			if len(files) == 0 {
 				continue
@@ -875,7 +915,8 @@ func TestC10(t *testing.T) {
 	rapidCases(h, "fids", env.PerShard(env.Pick(1600, 100000)), func(rt *rapid.T) fidCase {
 		var c fidCase
 		for i := rapid.IntRange(1, 30).Draw(rt, "n"); i > 0; i-- {
-			k := rapid.SampledFrom([]string{"walk", "walk", "walkfail", "close", "closefail", "remove", "xattr"}).Draw(rt, "op")
+			k := rapid.SampledFrom([]string{"walk", "walk", "walk", "walkfail", "close", "closefail", "remove", "xattr",
+				"xattr-read", "xattr-readfail", "xattr-walkfail", "xattr-clunkfail", "xattr-list", "xattr-listfail"}).Draw(rt, "op")
 			if k == "close" || k == "closefail" || k == "remove" {
 				k = fmt.Sprintf("%s:%d", k, rapid.IntRange(0, 9).Draw(rt, "i"))
 			}
